@@ -216,11 +216,20 @@ private:
         GenOpts go; unsigned big = (unsigned)wr.below(100);
         // the reader fills its 48K raw buffer completely before it looks at anything, so read boundaries only matter beyond that point:
         // most documents are padded so that the generated body starts around / after the first 49152 bytes
-        if (big < 60) go.padBytes = 49152 - (int)wr.below(400); else if (big < 70) go.padBytes = 49152 + (int)wr.below(3000); else if (big < 76) go.padBytes = 49152 * 2 - (int)wr.below(400); else if (big < 82) go.padTo = 16384 - (int)wr.below(400); else if (big < 86) go.padBytes = 49152 - 16384 - (int)wr.below(400);
+        if (big < 35) {          // one construct of the body slid across a 16384-unit character-buffer refill point (delta swept over a window)
+            go.alignMode = 1; go.alignMultiple = 3 + (int)wr.below(3); go.alignDelta = (int)wr.below(70) - 8; go.padAfterBytes = 20000;
+            static const char* ks[] = { "", "", "", "mbchar", "surrogate", "crlf", "charref", "entref", "etag", "cdata", "comment", "stag", "pi" }; go.alignKind = ks[wr.below(13)];
+        } else if (big < 50) {   // ... across a 49152-byte raw-buffer refill point
+            go.alignMode = 2; go.alignMultiple = 1 + (int)wr.below(2); go.alignDelta = (int)wr.below(110) - 6; go.padAfterBytes = wr.coin() ? 20000 : 0;
+            static const char* ks[] = { "", "", "mbchar", "surrogate", "crlf", "charref", "etag", "cdata", "stag" }; go.alignKind = ks[wr.below(9)];
+        }
+        else if (big < 62) go.padBytes = 49152 - (int)wr.below(400); else if (big < 70) go.padBytes = 49152 + (int)wr.below(3000); else if (big < 76) go.padBytes = 49152 * 2 - (int)wr.below(400); else if (big < 82) go.padTo = 16384 - (int)wr.below(400); else if (big < 86) go.padBytes = 49152 - 16384 - (int)wr.below(400);
         if (tier == "thorough" && wr.chance(1, 6)) go.bigText = true;
         if (big >= 86 && big < 92) go.bigText = true;
         World w = makeWorld(wr, go);
+        size_t leadBytes = w.res[0].padAt + w.res[0].padUnit.size() * w.res[0].padCount + w.res[0].padExtra.size();
         Json plan = Json::obj(); plan.set("mode", "C04");
+        if (go.alignMode) { Json al = Json::obj(); al.set("mode", go.alignMode == 1 ? "char16k" : "raw48k"); al.set("multiple", go.alignMultiple); al.set("delta", go.alignDelta); al.set("kind", go.alignKind); plan.set("aligned", al); }
         ParseCfg cfg = ParseCfg::random(wr); cfg.secMgr = false; if (cfg.scanner == 3) cfg.schema = true;
         bool mutated = fr.chance(3, 10);
         if (mutated) { int n = 1 + fr.small(2); for (int i = 0; i < n; i++) { Resource& r = w.res[fr.below(w.res.size())]; mutateBytes(fr, r.core); if (r.padAt > r.core.size()) r.padAt = r.core.size(); r.expand(); r.spans.clear(); } plan.set("mutated", true); }
@@ -242,7 +251,7 @@ private:
                 Json t = Json::obj(); t.set("res", w.res[pick.first].name); t.set("kind", sp.kind); t.set("b", (long long)sp.b); t.set("e", (long long)sp.e); plan.set("target", t);
             }
         }
-        for (auto& r : w.res) if (!sched.has(r.name)) sched.set(r.name, genSchedule(cr, r.bytes.size(), r.role == "doc" && go.padBytes > 600 ? (size_t)go.padBytes - 600 : 0).toJson());
+        for (auto& r : w.res) if (!sched.has(r.name)) sched.set(r.name, genSchedule(cr, r.bytes.size(), r.role == "doc" && leadBytes > 600 ? leadBytes - 600 : 0).toJson());
         plan.set("sched", sched); plan.set("faults", Json::obj());
         return plan;
     }
@@ -263,6 +272,7 @@ private:
         for (auto& r : b.res) { if (r.bytes.size() > 49152) g_run.probe("entity_over_48K_bytes"); else if (r.bytes.size() > 16384) g_run.probe("entity_over_16K_bytes"); }
         if (var.fatals) g_run.probe("variant_has_fatal"); if (ref.errors) g_run.probe("has_validity_error");
         g_run.probes["source:" + b.env.sourceKind]++;
+        if (plan.has("aligned")) g_run.probes["aligned_to_" + plan.at("aligned").gets("mode") + ":" + (plan.at("aligned").gets("kind").empty() ? std::string("any") : plan.at("aligned").gets("kind"))]++;
         if (getenv("VERIF_DEBUG_DUMPS")) fprintf(stderr, "==== reference\n%s\n==== variant\n%s\n", ref.dump.c_str(), var.dump.c_str());
         if (ref.dump != var.dump || ref.exception != var.exception) {
             o.violated = true; std::string d; std::string tok = ref.exception != var.exception && ref.dump == var.dump ? "exception" : firstDiff(ref.dump, var.dump, d);
@@ -294,7 +304,11 @@ private:
         else for (size_t k : tr.safeCuts) cuts.push((long long)k);
         plan.set("safe_cuts", cuts);
         Json ks = Json::arr(); size_t n = tr.bytes.size();
-        if (n <= 1200) for (size_t k = 0; k < n; k++) ks.push((long long)k);
+        // An EBCDIC external entity is only recognisable from its first four bytes ('<?xm' in EBCDIC); a shorter prefix is
+        // legitimately auto-sensed as UTF-8, in which 0x4C 0x6F are the well-formed text "Lo". Nothing can be expected of
+        // those cuts, so they are not enumerated (the document entity is unaffected: text alone is never a document).
+        size_t kFrom = (target != 0 && tr.enc.rfind("IBM", 0) == 0) ? 4 : 0;
+        if (n <= 1200) for (size_t k = kFrom; k < n; k++) ks.push((long long)k);
         else { std::set<size_t> s; for (auto& sp : tr.spans) for (size_t d = 0; d < 3; d++) { if (sp.b + d < n) s.insert(sp.b + d); if (sp.e >= d && sp.e - d < n) s.insert(sp.e - d); } for (int i = 0; i < 300; i++) s.insert(wr.below(n)); for (size_t d = 0; d < 40 && d < n; d++) s.insert(n - 1 - d); for (auto k : s) ks.push((long long)k); }
         plan.set("ks", ks);
         Json as = Json::arr(); int na = 3; for (int i = 0; i < na; i++) { Json sj = Json::obj(); for (auto& r : w.res) sj.set(r.name, genSchedule(cr, r.bytes.size()).toJson()); as.push(sj); }
